@@ -112,6 +112,10 @@ pub trait VK<'b, T: Elem> {
     fn arena_probe(&self) -> Option<(usize, usize)> {
         None
     }
+    /// the owned slice itself, for the consuming split / merge operations of `BumpBox<[T]>`
+    fn take_boxed(self: Box<Self>) -> Option<BumpBox<'b, [T]>> {
+        None
+    }
 }
 
 fn rng(r: &R2) -> (Bound<usize>, Bound<usize>) {
@@ -467,6 +471,9 @@ pub struct KBoxed<'a, T: Elem>(pub BumpBox<'a, [T]>);
 impl<'a: 'b, 'b, T: Elem + Clone + PartialEq> VK<'b, T> for KBoxed<'a, T> {
     fn kind(&self) -> KindId {
         KindId::Boxed
+    }
+    fn take_boxed(self: Box<Self>) -> Option<BumpBox<'b, [T]>> {
+        Some(self.0)
     }
     fn len(&self) -> usize {
         self.0.len()
